@@ -37,7 +37,8 @@ var transferCols = []wpg.Column{{Name: "ev_from", Type: "bytea"}, {Name: "ev_to"
 
 // chain whose first log of every tx is an ERC-20 Transfer and second a decoy
 func transferChain(n int, salt uint64) *simnode.Chain {
-	return simnode.NewChain(n, simnode.GenOpts{Salt: salt, MakeTx: transferMakeTx})
+	// three transactions per block; the third emits no log at all (a plain transfer / a log-less call)
+	return simnode.NewChain(n, simnode.GenOpts{Salt: salt, MakeTx: transferMakeTx, TxsPerBlock: func(uint64) int { return 3 }})
 }
 
 func padAddr(a []byte) []byte { return append(make([]byte, 12), a...) }
